@@ -347,6 +347,77 @@ def zckdl_family(ck, rnd, tier, bd, wd, trace, owner):
     return len(faults)
 
 
+# ---------------------------------------------------------------- IOFault behaviours replayed (R3)
+def iofault_replay(ck, rnd, tier, wd, trace, owner, scripts_by):
+    """every behaviour of the IOFault model (the outcome of each lseek / read / write of the copy phase of zck_close) is
+    replayed into the real code: one model byte = UNIT real bytes, the outcomes become fault rules of the I/O shim.  The
+    Writer contract judges each execution (successful close => complete valid output); in addition the real result is
+    compared with the model's (a difference is specification drift of the implementation-shaped model, not a violation)"""
+    UNIT = 16384
+    r = common.tlc("MC_IOFaultGen", "MC_IOFaultGen.cfg", workers=1, timeout=300)
+    ck.require_ok("MC_IOFaultGen", r); ck.add_tlc("MC_IOFaultGen (behaviour generator)", r, "N=4, B=2")
+    behs = common.tlc_printed_json(r, "BEH")
+    if len(behs) < 100:
+        raise Broken("MC_IOFaultGen printed only %d behaviours" % len(behs))
+    D = corpus.rand(rnd, 4 * UNIT)
+    src = os.path.join(wd, "iof.in"); open(src, "wb").write(D)
+    def script(cid, rules):
+        out = os.path.join(wd, cid + ".zck")
+        L = ["case %s 60" % cid, "ctx 0", "open 0 %s rwt" % out, "init_write 0 0", "ioption 0 100 0", "ioption 0 101 1", "write 0 file:%s" % src] + rules + ["close 0", "shim_stats", "free 0", "end"]
+        return "\n".join(L) + "\n", out
+    s0, o0 = script("iof-base", [])
+    st = [e for e in common.run_driver(s0, "plain") if e["op"] == "shim_stats"]
+    if not st:
+        ck.notes.append("IOFault replay skipped: no baseline statistics"); return 0
+    outw = [f["wcalls"] for f in st[0]["fdstats"] if f["f"] == 0][0]; H = outw - 2      # writes to the output before the copied data
+    S = st[0].get("temp_scalls", 0)
+    if H < 1 or S < 1 or st[0]["temp_rcalls"] != 3:
+        ck.notes.append("IOFault replay skipped: the copy phase does not have the modelled shape on this tree (output writes %d, temp lseeks %d, temp reads %d)" % (outw, S, st[0]["temp_rcalls"])); return 0
+    jobs = []
+    for bi, b in enumerate(behs):
+        rules = []; ri = 0; wi = 0; blk = 0
+        for c in b["calls"]:
+            if c["k"] == "s":
+                if c["failed"]: rules.append("shim_fault s -2 %d 5" % S)
+            elif c["k"] == "r":
+                ri += 1
+                if c["failed"]: rules.append("shim_fault r -2 %d 5" % ri)
+                elif 0 < c["v"] < 2: rules.append("shim_fault r -2 %d %d" % (ri, -c["v"] * UNIT))      # (a short read; the model never shortens the last unit)
+                blk = c["v"]; left = blk
+            else:
+                wi += 1
+                if c["failed"] and c["v"] == 0: rules.append("shim_fault w 0 %d 28" % (H + wi))
+                elif c["v"] < left: rules.append("shim_fault w 0 %d %d" % (H + wi, -c["v"] * UNIT if c["v"] else 0))
+                left -= c["v"]
+        cid = "iof%d" % bi
+        scr, out = script(cid, rules)
+        jobs.append((cid, b, scr, out))
+    evs = common.by_case([e for part in common.run_driver_parallel(["".join(j[2] for j in jobs[k::12]) for k in range(12)], "plain", timeout=1200) for e in part])
+    mism = 0
+    for (cid, b, scr, out) in jobs:
+        ce = evs.get(cid, [])
+        name = "IOFault behaviour %s (model: %s, %d of 4 units delivered)" % (" ".join("%s%s%s" % (c["k"], c["v"], "!" if c["failed"] else "") for c in b["calls"]), b["result"], b["delivered"])
+        trace.append({"op": "wstart", "case": name}); owner.append(cid)
+        for e in ce:
+            if e["op"] == "write":
+                trace.append({"op": "write", "n": e["n"], "ret": e["ret"]}); owner.append(cid)
+            elif e["op"] == "close":
+                buf = open(out, "rb").read() if os.path.exists(out) else b""
+                rf = ref.RefFile(buf)
+                f_ = {"valid": bool(rf.valid_strict), "contentEq": rf.content is not None and rf.content == D, "total": len(rf.content) if rf.content is not None else -1, "cutsOk": True}
+                trace.append({"op": "wclose", "ret": e["ret"], "f": f_}); owner.append(cid)
+                if (e["ret"] == 1) != (b["result"] == "ok"):
+                    mism += 1
+            elif e["op"] in ("Crash", "Hang"):
+                trace.append({"op": e["op"]}); owner.append(cid)
+        scripts_by[cid] = (scr, name, None)
+        ck.case(name)
+    ck.extra["iofault_behaviours_replayed"] = len(jobs); ck.extra["iofault_result_differs_from_model"] = mism
+    if mism:
+        ck.notes.append("%d replayed IOFault behaviours ended differently from the model (specification drift of the implementation-shaped model)" % mism)
+    return len(jobs)
+
+
 # ---------------------------------------------------------------- context life cycle (Ctx.tla)
 def ctx_family(ck, rnd, tier, wd):
     """TLC (MC_Ctx) enumerates the call histories on one context; each is run on the real library (faults armed with
@@ -454,9 +525,10 @@ def run(tier):
     nt = tool_family(ck, rnd, tier, bd, wd, tw, ow)
     nz = zckdl_family(ck, rnd, tier, bd, wd, tw, ow)
     nc = ctx_family(ck, rnd, tier, wd)
+    ni = iofault_replay(ck, rnd, tier, wd, tw, ow, sb)
     nr = reader_family(ck, rnd, tier, wd, tr, orr, sb)
     nd = delta_family(ck, rnd, tier, wd, td, od, sb)
-    ck.extra["single_faults"] = {"writer": nw, "tools": nt, "zckdl": nz, "context_histories": nc, "reader_validate": nr, "copy_download": nd}
+    ck.extra["single_faults"] = {"writer": nw, "tools": nt, "zckdl": nz, "context_histories": nc, "iofault_behaviours": ni, "reader_validate": nr, "copy_download": nd}
     ck.sample({"writer_case": tw[0].get("case"), "events": tw[:6]})
     ck.sample({"reader_case": [t for t in tr[:6]]})
     validate_segments(ck, "C12", tw, ow, wd, scripts_by=sb, module="Trace_Writer", cfg="Trace_Writer.cfg", start_ops=("wstart",))
